@@ -193,8 +193,8 @@ def run(tier, seed):
     cov = {
         'states': len(STATES), 'transitions': total, 'traces_validated_against_impl': total,
         'evaluations': total, 'distinct_nontrivial': len(set((c[0], c[1], c[2]) for c in classes)),
-        'samples': [{'state': 'established', 'frame': items[0][1].hex()[:120], 'kind': items[0][0]},
-                    {'state': 'openconfirm', 'frame': items[-1][1].hex()[:120], 'kind': items[-1][0]}],
+        'samples': [{'state': report.pick(list(STATES), seed + i, 1)[0], 'frame': it[1].hex()[:160], 'kind': it[0]}
+                    for i, it in enumerate(report.pick(items, seed, 3))],
         'hostile_frames': len(items), 'seeds': len(corpus), 'mutated_seeds': len(mut_seeds), 'session_states': list(STATES),
         'explanation': 'hostile pool = every byte string of the unit tests and the reference messages, plus all single-octet mutations '
                        '(0x00, 0xFF, ^0x80, +1, -1) and all truncations of %d seeds, each framed correctly as the body of message types '
